@@ -155,7 +155,8 @@ def build_module(module, flags=(), san="plain", extra_sources=(), driver_src=Non
                 res["err"] = "cc failed: %s\n%s" % (bad[0][0], bad[0][1][-2000:])
             else:
                 objs = [os.path.splitext(os.path.basename(s))[0] + ".o" for s in allsrc]
-                rr = sh(cc + lf + objs + ["-o", "driver", "-lm", "-lpthread"], cwd=d)
+                rr = sh(cc + lf + objs + ["-o", "driver", "-lm", "-lpthread",
+                                          "-Wl,--wrap=malloc,--wrap=calloc,--wrap=realloc,--wrap=free"], cwd=d)
                 if rr.returncode:
                     res["err"] = "link failed:\n" + rr.stdout[-2000:]
                 else:
@@ -278,8 +279,12 @@ def op_line(module, scn, op):
         return "E %d %s" % (op["slot"], op["syn"])
     if a == "Decode":
         return "D %d %s W" % (op["slot"], op["syn"])
-    if a == "DecodeLit":
+    if a in ("DecodeLit", "DecodeAny"):
         return "D %d %s X%s" % (op["slot"], op["syn"], bytes(op["bytes"]).hex())
+    if a == "DecodeInto":
+        return "D %d %s X%s I" % (op["slot"], op["syn"], bytes(op["bytes"]).hex())
+    if a == "BuildZero":
+        return "BZ %d" % op["slot"]
     if a == "StartDecode":
         return "SD %d %s X%s" % (op["slot"], op["syn"], bytes(op["bytes"]).hex())
     if a == "DecodeCall":
@@ -292,6 +297,16 @@ def op_line(module, scn, op):
         return "KA %d" % op["slot"]
     if a == "Free":
         return "F %d" % op["slot"]
+    if a == "Reset":
+        return "R %d" % op["slot"]
+    if a == "Print":
+        return "P %d" % op["slot"]
+    if a == "Arm":
+        return "AF %d" % op["k"]
+    if a == "EncodeCb":
+        return "EC %d %s %d" % (op["slot"], op["syn"], op["failat"])
+    if a == "EncodeBuf":
+        return "EB %d %s %s" % (op["slot"], op["syn"], op["rel"])
     raise Infra("no driver command for op " + a)
 
 
@@ -336,7 +351,7 @@ def run_driver(build, module, scns, timeout=600, env=None):
                 break
             crashes += 1
             last = got[-1]["id"] if got else todo[0]["id"]
-            if not got or got[-1]["a"] != "Crash":
+            if not got or got[-1]["a"] not in ("Crash", "Timeout"):
                 events.append({"id": last, "i": (got[-1]["i"] + 1) if got and got[-1]["a"] != "Session" else 1,
                                "a": "Crash", "sig": rc, "detail": tail[-400:]})
                 if not got:
@@ -364,6 +379,8 @@ def convert_events(module, scns, events):
         if "bytes" in ev:
             ev["bytes"] = bytes_of(ev["bytes"])
         if ev["a"] == "Build" and s is not None and 0 < ev["i"] <= len(s["plan"]) and s["plan"][ev["i"] - 1]["a"] in ("BuildRep", "BuildVal"):
+            ev["a"] = s["plan"][ev["i"] - 1]["a"]
+        if ev["a"] == "DecodeLit" and s is not None and 0 < ev["i"] <= len(s["plan"]) and s["plan"][ev["i"] - 1]["a"] in ("DecodeAny", "DecodeInto"):
             ev["a"] = s["plan"][ev["i"] - 1]["a"]
         if ev["a"] == "Check":
             # does the message name a type?  "<name>: ..." with <name> a type or member name of the module
